@@ -256,7 +256,7 @@ impl<
                         });
                         self.expiration(k)
                             .and_then(|t| {
-                                if t.is_expired() {
+                                if !t.is_zero() && t.is_expired() {
                                     let cost = policy.cost(k);
                                     policy.remove(k);
                                     self.try_remove(k, *v)
@@ -298,7 +298,7 @@ impl<
                 });
                 let expiration = self.expiration(k);
                 if let Some(t) = expiration {
-                    if t.is_expired() {
+                    if !t.is_zero() && t.is_expired() {
                         let cost = policy.cost(k);
                         policy.remove(k);
                         let removed_item = self.try_remove(k, *v)?;
@@ -322,6 +322,7 @@ impl<
     pub fn clear(&self) {
         // TODO: item call back
         self.shards.iter().for_each(|shard| shard.write().clear());
+        self.em.clear();
     }
 
     pub fn hasher(&self) -> ES {
